@@ -58,7 +58,7 @@ PREFIXES = [
 class C13(Prop):
     id = "C13"
     compare_run = True
-    property_obs = ("prep", "crash")
+    property_obs = ("prep", "crash", "unit", "class")
     rule = ("exhaustive product of invalid fragments (unterminated string/regexp/block/parameter list/switch, missing operands, "
             "assignment and each compound assignment to a non-variable, local outside a function, nested ternaries, illegal characters, "
             "embedded NUL, non-identifier loop variables / parameters / function names, missing braces, bad regexp flags, integer overflow) "
@@ -121,6 +121,13 @@ class C13(Prop):
             for ctx in REPEATED_KEY_CONTEXTS:
                 out.append(case(ctx % frag, False, "invalid-under-repeated-key"))
                 out.append(case(rng.choice(PREFIXES) + "if (c) { " + ctx % frag + " }", False, "invalid-under-repeated-key"))
+        # an evaluator that WAS prepared successfully is handed an invalid script (the Script field is public) and prepared again and
+        # again: every one of these Prepare calls must fail
+        for src in ["return 1;", "x = 1; return x + 1;", "function f(a) { return a; } return f(2);"]:
+            for mode in ("opt", "noopt"):
+                ops = ["prepare:" + mode, "badprepare", "badprepare", "badprepare", "exec:0", "prepare:" + mode, "badprepare", "badprepare"]
+                out.append(Case("run", {"script": vlib.hx(src), "objs": "N", "ops": ";".join(ops)}, "invalid-after-valid-evaluator",
+                                expect={"o0.prep": "ok", "o1.unit": "1", "o2.unit": "1", "o3.unit": "1", "o4.class": "ok", "o6.unit": "1", "o7.unit": "1"}, note=src))
         for frag in VALID_STMT:
             for ctx in STMT_CONTEXTS:
                 src = ctx % frag
